@@ -141,9 +141,10 @@ func (p *HTTPProxy) ServeHTTP(w http.ResponseWriter, r *http.Request) {
 
 	// build the real target url that is passed to the proxy
 	targetURL := &url.URL{
-		Scheme: t.URL.Scheme,
-		Host:   t.URL.Host,
-		Path:   r.URL.Path,
+		Scheme:  t.URL.Scheme,
+		Host:    t.URL.Host,
+		Path:    r.URL.Path,
+		RawPath: r.URL.RawPath,
 	}
 	if t.URL.RawQuery == "" || r.URL.RawQuery == "" {
 		targetURL.RawQuery = t.URL.RawQuery + r.URL.RawQuery
@@ -162,20 +163,25 @@ func (p *HTTPProxy) ServeHTTP(w http.ResponseWriter, r *http.Request) {
 	// TODO(fs): matchers which may have different rules. I'll keep this for
 	// TODO(fs): a defensive approach.
 	if t.StripPath != "" && strings.HasPrefix(r.URL.Path, t.StripPath) {
-		targetURL.Path = targetURL.Path[len(t.StripPath):]
 		// ensure absolute path after stripping to maintain compliance with
 		// section 5.3 of RFC7230 (https://tools.ietf.org/html/rfc7230#section-5.3)
-		if !strings.HasPrefix(targetURL.Path, "/") {
-			targetURL.Path = "/" + targetURL.Path
+		targetURL.Path = absPath(targetURL.Path[len(t.StripPath):])
+		// keep the encoding the client used for the rest of the path
+		// (e.g. %2F) if its encoded form starts with the same prefix.
+		if strings.HasPrefix(targetURL.RawPath, t.StripPath) {
+			targetURL.RawPath = absPath(targetURL.RawPath[len(t.StripPath):])
+		} else {
+			targetURL.RawPath = ""
 		}
 	}
 
 	if t.PrependPath != "" {
-		targetURL.Path = t.PrependPath + targetURL.Path
-		// ensure absolute path after stripping to maintain compliance with
+		// ensure absolute path after prepending to maintain compliance with
 		// section 5.3 of RFC7230 (https://tools.ietf.org/html/rfc7230#section-5.3)
-		if !strings.HasPrefix(targetURL.Path, "/") {
-			targetURL.Path = "/" + targetURL.Path
+		targetURL.Path = absPath(t.PrependPath + targetURL.Path)
+		if targetURL.RawPath != "" {
+			prefix := (&url.URL{Path: t.PrependPath}).EscapedPath()
+			targetURL.RawPath = absPath(prefix + targetURL.RawPath)
 		}
 	}
 
@@ -267,6 +273,14 @@ func (p *HTTPProxy) ServeHTTP(w http.ResponseWriter, r *http.Request) {
 			UpstreamURL:     targetURL,
 		})
 	}
+}
+
+// absPath returns p with a leading slash.
+func absPath(p string) string {
+	if strings.HasPrefix(p, "/") {
+		return p
+	}
+	return "/" + p
 }
 
 func key(code int) string {
